@@ -20,7 +20,8 @@ Inits == { <<>>, <<"0">>, <<"default">>, <<"delete">> }
 
 Functions == [kind : {"function"}, ret : RetTypes, name : {"f"}, params : ParamLists, prefix : {"", "virtual", "static"},
               cav : {"", "const"}, override : BOOLEAN, init : Inits, body : Bodies, scope : {"", "S"}]
-Ctors == [kind : {"ctor"}, scope : {"S"}, explicit : BOOLEAN, params : ParamLists, init : Inits \ {<<"0">>},
+\* (owner "T": a class named like the last identifier of a parameter type - still an ordinary converting constructor)
+Ctors == [kind : {"ctor"}, scope : {"S", "T"}, explicit : BOOLEAN, params : ParamLists, init : Inits \ {<<"0">>},
           mil : { <<>>, << <<"m_a", "(", "1", ")">> >>, << <<"m_a", "(", "1", ")">>, <<"m_b", "{", "2", "}">> >> }, body : Bodies]
 Dtors == [kind : {"dtor"}, scope : {"S"}, override : BOOLEAN, init : Inits \ {<<"0">>}, body : Bodies]
 NmString == [raw |-> "string", sys |-> <<"string">>, q |-> "\"string\""]
